@@ -254,6 +254,15 @@ class SymbolicExpression(Generic[T], ABC):
         return conditions_root
 
     @property
+    def _is_condition_of_nested_query_(self) -> bool:
+        """
+        True if this expression is the whole condition of a query that is nested in another query
+        (`_conditions_root_` only finds the condition of the outermost query).
+        """
+        parent = self._parent_
+        return isinstance(parent, QueryObjectDescriptor) and parent._child_ is self
+
+    @property
     def _root_(self) -> SymbolicExpression:
         """
         Get the root of the symbolic expression tree.
@@ -1142,7 +1151,11 @@ class DomainMapping(CanBehaveLikeAVariable[T], ABC):
         :param current_value: The current value of this operation that is derived from the child result.
         :return: The operation result.
         """
-        if isinstance(self._parent_, LogicalOperator) or self is self._conditions_root_:
+        if (
+            isinstance(self._parent_, LogicalOperator)
+            or self is self._conditions_root_
+            or self._is_condition_of_nested_query_
+        ):
             self._is_false_ = not bool(current_value)
         return OperationResult(
             {**child_result.bindings, self._id_: current_value},
